@@ -464,6 +464,25 @@ class MNx(Model):
     def is_directed_acyclic_graph(self, g):
         return g.is_dag()
 
+    def bfs_layers(self, g, sources):
+        """networkx.bfs_layers: the nodes at distance 0, 1, 2 ... from the sources (shortest distances, each node once)."""
+        if sources in g._node if isinstance(sources, (str, int, tuple)) else False:
+            sources = [sources]
+        current = list(dict.fromkeys(sources))
+        for n in current:
+            if n not in g._node:
+                raise ModelRaise("NetworkXError", f"The node {n} is not in the graph.")
+        seen = set(current)
+        while current:
+            yield list(current)
+            nxt = []
+            for n in current:
+                for v in g._succ[n]:
+                    if v not in seen:
+                        seen.add(v)
+                        nxt.append(v)
+            current = nxt
+
     def topological_sort(self, g):
         """A generator, as in networkx: the acyclic prefix is yielded before NetworkXUnfeasible is raised for a graph with a
         cycle (code that wraps the iteration in try/except has already consumed those nodes)."""
@@ -1019,6 +1038,8 @@ class RefCircuit(Model):
         for o in c.outputs():
             if f"{name}.{o}" in self.graph and self.fanout(f"{name}.{o}") and (c.type(o) == "bb_input" or (c.type(o) == "bb_output" and c.fanout(o))):
                 raise ModelRaise("ValueError", "an output that is a blackbox pin cannot drive the loads of the filled pin")
+        # the parent's own output list is unchanged: a pin the parent observes stays observed under its new name
+        observed = [f"{name}_{n}" for n in bb.io() if self.is_output(f"{name}.{n}")]
         self.relabel({f"{name}.{n}": f"{name}_{n}" for n in bb.io()})
         g = MNx().relabel_nodes(c.graph, {n: f"{name}_{n}" for n in c})
         self.graph.update(g)
@@ -1026,6 +1047,8 @@ class RefCircuit(Model):
             self.set_type(f"{name}_{n}", "buf")
         for n in bb.outputs():
             self.set_output(f"{name}_{n}", False)
+        for n in observed:
+            self.set_output(n, True)
         self.blackboxes.pop(name)
         for k, b in c.blackboxes.items():
             self.blackboxes[f"{name}_{k}"] = b
